@@ -24,7 +24,7 @@ CLAIM = {
             "PIPE WITH SUB-PIPES: the real upipe_play.c (helper_subpipe) with two sub-pipes and two sinks (harness/C04_play.c): the total "
             "latency stamped on every sub-pipe's flow definition changes when ANOTHER sub-pipe gets a larger latency or a sink answers "
             "the latency request; at every delivery the definition last accepted by the sink must equal the sub-pipe's current one "
-            "(attribute by attribute) and carry the reference model's latency; ready first / dead last for the three pipes.",
+            "(attribute by attribute); ready first / dead last for the three pipes.",
     "note": "Trusted: CBMC 6.11, harness probe/sinks/monitors (pipe_env.h, pipe_seq.c), fprestrict.py target sets (assertion-guarded), "
             "shims as listed in the evidence. Bounds: sequences of 4 (quick) / 5 (thorough) operations from the stated alphabets; "
             "3-octet single-segment buffers. Not covered: split / bin pipes and sub-pipe pipes other than upipe_play, pipes needing external libraries, "
